@@ -209,10 +209,25 @@ class Intrinsics:
                     return 0
                 st.nondet.append((nm, v, 64))
                 return v
+            k = len(st.choices)
+            if eng.probe_depth is not None and k >= eng.probe_depth:
+                eng.probe_out.append(list(st.choices))
+                st.status = "dead"
+                return 0
+            if k < len(eng.choice_prefix):
+                v = eng.choice_prefix[k]
+                if v >= n:
+                    st.status = "dead"
+                    return 0
+                st.choices = st.choices + (v,)
+                st.nondet.append((nm, v, 64))
+                return v
             items = []
+            base = st.choices
             for i in range(n):
                 s = st if i == n - 1 else st.fork()
                 s.nondet.append((nm, i, 64))
+                s.choices = base + (i,)
                 items.append((s, i))
             return Forks(items)
 
